@@ -919,6 +919,7 @@ fn explore(ctx: &mut Ctx) {
         for depth in 1..=3 {
             passes.push((&ALL_FILES[..], &two[..], depth));
         }
+        passes.push((&REDUCED_FILES[..], &one[..], 4));
     }
     for (files, values, depth) in passes {
         let before = ctx.states;
